@@ -16,6 +16,7 @@ type allocCase struct {
 	progCase
 	Budget int64 `json:"budget"`
 	MaxEv  int   `json:"max_events"`
+	Clone  bool  `json:"clone"` // run a Clone() of the compiled script: it must carry the same budget
 }
 
 func kindOf(o tengo.Object) string {
@@ -46,6 +47,9 @@ func allocHandle(raw []byte) map[string]interface{} {
 	}
 	if pc.MaxEv == 0 {
 		pc.MaxEv = 3000
+	}
+	if pc.Clone {
+		c = c.Clone()
 	}
 	var evs []V
 	over := false
